@@ -18,7 +18,7 @@ m = {
  "engines": [{
   "name": "symgo", "path": "/verif/engine",
   "serves_properties": [p for p in props if p in checks],
-  "kind_free_text": "own symbolic executor for Go: go/ssa of /repo's current working tree (plus overlay harnesses) is interpreted with SMT terms for data, concrete heap per path, forking on solver-feasible branches; goroutines/channels/select/sync/atomics/context modelled, every scheduling decision explored (stateful search + sleep sets); assertions and branch feasibility discharged by z3 4.8.12 over a pipe (z3 5.1.0 and cvc5 as differential oracles in the thorough tier); counterexamples replayed natively through go test -overlay"
+  "kind_free_text": "own symbolic executor for Go: go/ssa of /repo's current working tree (plus overlay harnesses) is interpreted with SMT terms for data, concrete heap per path, forking on solver-feasible branches; goroutines/channels/select/sync/atomics/context modelled, every scheduling decision explored (stateful search + sleep sets + persistent sets by heap reachability), a clock-free happens-before race monitor; assertions and branch feasibility discharged by z3 4.8.12 over a pipe (z3 5.1.0 and cvc5 as differential oracles on the runs marked diff); counterexamples replayed natively through go test -overlay: inputs from the model, schedules through yield points instrumented by engine/cmd/vinstr and a controller that grants them in the counterexample's order"
  }],
  "checks": [],
  "notes": text.get("_notes", ""),
